@@ -189,6 +189,12 @@ func (s *Statement) PrintTree(parent *Node, printFlat bool, printBinary bool, in
 	if childrenPresent {
 		out.WriteString(TREE_PRINTER_LINEBREAK)
 		out.WriteString(TREE_PRINTER_COLLECTION_CLOSE)
+	} else {
+		// Emit empty children collection, so that the preceding member separator is followed by a member
+		out.WriteString(TREE_PRINTER_KEY_CHILDREN)
+		out.WriteString(TREE_PRINTER_EQUALS)
+		out.WriteString(TREE_PRINTER_COLLECTION_OPEN)
+		out.WriteString(TREE_PRINTER_COLLECTION_CLOSE)
 	}
 	// Close entire tree
 	out.WriteString(TREE_PRINTER_LINEBREAK)
